@@ -6,7 +6,7 @@ V = os.path.dirname(os.path.dirname(os.path.abspath(__file__)))
 CROSS = {"C01": ["C16"], "C02": ["C16"], "C03": ["C08"], "C04": ["C08"], "C07": ["C11"], "C09": ["C14"], "C14": ["C09", "C06"], "C06": ["C14"], "C11": ["C07"], "C16": ["C01", "C02"]}
 det_path = os.path.join(V, "seeded", "detection.json")
 det = json.load(open(det_path)) if os.path.exists(det_path) else {}
-seeds = sys.argv[1:] or sorted(d for d in os.listdir(os.path.join(V, "seeded")) if os.path.isdir(os.path.join(V, "seeded", d)))
+seeds = sys.argv[1:] or sorted(d for d in os.listdir(os.path.join(V, "seeded")) if os.path.exists(os.path.join(V, "seeded", d, "patch.diff")))
 for s in seeds:
     if subprocess.run(["git", "-C", "/repo", "status", "--porcelain"], capture_output=True, text=True).stdout.strip():
         sys.exit("/repo is not clean")
